@@ -158,7 +158,32 @@ def register(gen, T):
         rej = re.search(r'ir::RootDefinition::ConstantBuffer\(_\) => \{ return Err\(GenerateError::ConstantBuffersNotSimplified\); \}', nmb)
         out.append(f"def mslRejectsCbufferRoot : Bool := {b(rej)}\n")
         out.append(f"def hlslNameIsGeneratedName : Bool := {b(gl['name'] == 'context.get_global_name(*id)?.to_string()' and cb['name'] == 'context.get_constant_buffer_name(*id)?.to_string()')}\n")
-        out.append(f"def mslNameIsSourceName : Bool := {b(ml[0]['name'] == 'module.get_global_name(*id).to_string()')}\n\n")
+        out.append(f"def mslNameIsGeneratedName : Bool := {b(ml[0]['name'] == 'context.get_global_name(*id)?.to_string()')}\n")
+        big = re.search(r'if let Some\(api_slot\) = decl\.api_slot \{ let binding = DescriptorBinding \{.*?\}; '
+                        r'if api_slot\.set as usize >= ARGUMENT_BUFFER_NAMES\.len\(\) \{ return Err\(GenerateError::UnsupportedBindGroupIndex\(api_slot\.set\)\); \} '
+                        r'layout\.register_binding\(api_slot\.set, binding, \*id\); \}', nmb)
+        out.append(f"/-- msl analyse_bindings refuses a bind group that has no argument buffer struct name -/\n"
+                   f"def mslRejectsGroupWithoutArgumentBuffer : Bool := {b(big)}\n\n")
+
+        # usage analysis (ir/src/usage_analysis.rs): what every symbol requires directly, and the closure loop
+        usage = T.src("ir/src/usage_analysis.rs")
+        cl = normws(fn_body(usage, "calculate_local"))
+        rc = normws(fn_body(usage, "recurse"))
+        cf = normws(fn_body(usage, "calculate_for_function"))
+        ufacts = {
+            "functionsRequireBodyAndDefaults": (cf, r'if let Some\(def\) = def \{ for param in &def\.params \{ if let Some\(default_expr\) = &param\.default_expr \{ gather_usage_for_expression\(default_expr, &mut usage\); \} \} gather_usage_for_scope_block\(&def\.scope_block, &mut usage\); \}'),
+            "globalsRequireTheirInitializer": (cl, r'let mut usage = LocalUsageAnalysis::default\(\); gather_usage_for_init_opt\(&module\.global_registry\[i\]\.init, &mut usage\); let valid_insert = result \.insert\(UsageSymbol::GlobalVariable\(id\), usage\)'),
+            "cbuffersRequireNothing": (cl, r'let usage = LocalUsageAnalysis::default\(\); let valid_insert = result \.insert\(UsageSymbol::ConstantBuffer\(id\), usage\)'),
+            "closureLoopShape": (rc, r'let keys = self\.0\.keys\(\)\.cloned\(\)\.collect::<Vec<_>>\(\); loop \{ let mut modified = false; for key in &keys \{ '
+                                     r'let current_set = self\.0\.get\(key\)\.unwrap\(\); let mut new_set = current_set\.required\.clone\(\); '
+                                     r'for other in &current_set\.required \{ new_set\.extend\(&self\.0\.get\(other\)\.unwrap\(\)\.required\); \} '
+                                     r'if new_set\.len\(\) > current_set\.required\.len\(\) \{ let stored_analysis = self\.0\.get_mut\(key\)\.unwrap\(\); '
+                                     r'stored_analysis\.required = new_set; modified = true; \} \} if !modified \{ break; \} \} self$'),
+        }
+        out.append("/-- syntactic facts about GlobalUsageAnalysis (regexes over the normalised source) -/\nstructure UsageFacts where\n"
+                   + "".join(f"  {k} : Bool\n" for k in ufacts) + "  deriving DecidableEq, Repr\n\n")
+        out.append("def usageFacts : UsageFacts := { " +
+                   ", ".join(f"{k} := {b(re.search(rx, text))}" for k, (text, rx) in ufacts.items()) + " }\n\n")
 
         # generate_pipeline (msl): used marking, sort, id / buffer attributes
         gp = normws(fn_body(msl, "generate_pipeline"))
@@ -175,7 +200,7 @@ def register(gen, T):
                    + "".join(f"  {k} : Bool\n" for k in gp_facts) + "  deriving DecidableEq, Repr\n\n")
         out.append("def mslPipelineFacts : MslPipelineFacts := { " +
                    ", ".join(f"{k} := {b(re.search(rx, gp))}" for k, rx in gp_facts.items()) + " }\n\n")
-        names = re.search(r'ARGUMENT_BUFFER_NAMES: &\[&str\] = &\[([^\]]*)\]', gp)
+        names = re.search(r'ARGUMENT_BUFFER_NAMES: &\[&str\] = &\[([^\]]*)\]', normws(msl))
         if not names:
             raise ExtractError("ARGUMENT_BUFFER_NAMES not found")
         consts = [c.strip() for c in names.group(1).split(',') if c.strip()]
